@@ -44,6 +44,7 @@ def run_case(case):
     nz = len(St["z"])
     prec = "double" if rng.random() < 0.7 else "single"
     tol = solve.tol(prec, St["G"], cr=St["cr"])
+    analytic = bool(St["pdesc"]["kind"] == "constant" and rng.random() < 0.4)  # the closed-form branch obeys the same identity
     levels, lkind = solve.pick_levels(rng, nz, str(rng.choice(["top", "scalar", "few", "with_top", "shuffled"])))
     nl = solve.nlev(levels)
     viol, sigs = [], []
@@ -53,7 +54,7 @@ def run_case(case):
     pts = pts[: (2 if St["nxe"] * St["nye"] > 90 * 90 else 4)]
     fps = {}
     for (im, jm) in pts:
-        _, G, F = solve.solve(St, np.zeros((ny, nx)), levels, meas_pt=(im * dx, jm * dy), footprint=True, precision=prec)
+        _, G, F = solve.solve(St, np.zeros((ny, nx)), levels, meas_pt=(im * dx, jm * dy), footprint=True, precision=prec, analytic=analytic)
         counters["footprint_runs"] += 1
         fps[(im, jm)] = (solve.as3d(G, nl), solve.as3d(F, nl))
         fps[(im, jm)] += solve.surface_scales(St, np.zeros((ny, nx)), meas_pt=(im * dx, jm * dy), footprint=True, precision=prec)
@@ -61,7 +62,7 @@ def run_case(case):
     for _ in range(2):
         q0, skind = gen.make_source(rng, ny, nx)
         bg = float(rng.choice([0.0, rng.normal() * 10]))
-        _, cf, ff = solve.solve(St, q0, levels, srf_bg_conc=bg, precision=prec)
+        _, cf, ff = solve.solve(St, q0, levels, srf_bg_conc=bg, precision=prec, analytic=analytic)
         counters["forward_runs"] += 1
         cf, ff = solve.as3d(cf, nl), solve.as3d(ff, nl)
         for (im, jm), (G, F, sG, sF) in fps.items():
@@ -94,7 +95,7 @@ def run_case(case):
             if np.ptp(q0) > 0 and np.ptp(F[0]) > 0:
                 sigs.append(f"{case['idx']}|{skind}|{im},{jm}")
     b = {f"halo:{St['halo_class']}": 1, f"modes:{St['mode_class']}": 1, f"prec:{prec}": 1, f"profiles:{St['pdesc'].get('closure', St['pdesc']['kind'])}": 1,
-         f"levels:{lkind}": 1, f"parity:{'even' if nx % 2 == 0 and ny % 2 == 0 else 'odd'}": 1, gen.gbucket(St["G"]): 1}
+         f"levels:{lkind}": 1, "analytic" if analytic else "numeric": 1, f"parity:{'even' if nx % 2 == 0 and ny % 2 == 0 else 'odd'}": 1, gen.gbucket(St["G"]): 1}
     return {"evals": counters["forward_runs"] * len(pts) * nl, "nontrivial": bool(sigs), "sig": sigs, "buckets": b, "resid": resid,
             "counters": counters, "violations": viol, "sample": {"setup": desc, "points": pts, "levels": levels, "precision": prec}}
 
